@@ -16,6 +16,15 @@ def instances(tier):
                             Reacts={"none", "send", "ping", "close", "badclose"}, ReactAt=AT | {"poll", "binary"}, MaxReacts=4)}])
 
 
+def variants(sc, b):
+    out = [('base', sc)]
+    if sessprop.sampled(sc, b, 4):
+        out.append(('zero-timeouts', sessprop.zero_timeouts(sc)))      # "disabled" spelled 0 instead of None
+    if sessprop.sampled(sc, b, 9):
+        out.append(('deflate', sessprop.via_deflate(sc, 'rand')))      # the same frames from an RFC 7692 peer
+    return out
+
+
 def nontrivial(log, sc):
     names = tuple(x['name'] for x in log if x['k'] == 'ev')
     calls = tuple((x['m'], x['at'], x['res']) for x in log if x['k'] == 'call')
@@ -47,7 +56,7 @@ def run(tier, seed):
         rule='all orders of application close()/send at any event (incl. Connecting, Connected, Closing) with server frames '
              '(data, fragments, ping, Close 1000+reason / empty / 4000) up to the bound; non-trivial = distinct histories in which a '
              'Close frame was written',
-        nontrivial=nontrivial, need_actions=('CloseFin', 'CloseEcho', 'ExitGraceful', 'AppReact'), anchors=anchors, sample_keys=('ev', 'wr', 'call'),
+        nontrivial=nontrivial, need_actions=('CloseFin', 'CloseEcho', 'ExitGraceful', 'AppReact'), anchors=anchors, variants=variants, sample_keys=('ev', 'wr', 'call'),
         random_scripts=[{'cfgname': 'CfgPlain', 'cfg': PLAIN, 'n': (300, 4000), 'items': 'C08Items', 'faults': set()}])
     need = {'closing', 'closed', 'app_close_frame', 'send_refused', 'send_during_closing', 'close_during_closing', 'close_before_ready'}
     missing = sorted(need - seen)
